@@ -102,7 +102,7 @@ type Engine struct {
 var initAllow = map[string]bool{"html": true, "unicode/utf8": true, "unicode": true, "strconv": true, "strings": true,
 	"bytes": true, "io": true, "errors": true, "sort": true, "slices": true, "math": true, "math/bits": true,
 	"path": true, "path/filepath": true, "unicode/utf16": true, "encoding/binary": true, "io/fs": true, "net/url": true,
-	"math/rand": false}
+	"math/rand": true}
 
 // package-level variables of skipped initialisers that may be read as their zero value (the engine
 // models or never dereferences them)
